@@ -86,6 +86,7 @@ def explore_order(util, n, bound, cond_prefixes, sh):
             size = r0[1]
             counts = {}
             rejected = []
+            sh.n += 1 << (8 * size)          # progress (watchdog) per node
             for a in all_answers(size):
                 transitions += 1
                 res = run_randrange(util, n, prefix + [a])
@@ -143,11 +144,12 @@ def shard_orders(arg):
         need = run_randrange(util, n, [])
         size = need[1] if need[0] == "need" else 1
         b = bound if size == 1 else min(bound, 1)
+        n0 = sh.n
         s, t, e = explore_order(util, n, b, cond if size > 1 else None, sh)
         st += s
         tr += t
         ex += e
-        sh.n += e
+        sh.n = n0 + e
         sh.nt += t
     sh.extra["states"] = st
     sh.extra["transitions"] = tr
